@@ -5,3 +5,4 @@ import ExprModel.Props.C13
 import ExprModel.Props.C14
 import ExprModel.Props.C15
 import ExprModel.Props.C17
+import ExprModel.Props.C18
